@@ -138,7 +138,8 @@ class GlomError(Exception):
         exc_type = type(exc)
         bases = (GlomError,) if issubclass(GlomError, exc_type) else (exc_type, GlomError)
         try:
-            exc_wrapper_type = type(f"GlomError.wrap({exc_type.__name__})", bases, {})
+            # the message, with the target-spec trace, is GlomError's, also when the wrapped class brings a __str__ of its own
+            exc_wrapper_type = type(f"GlomError.wrap({exc_type.__name__})", bases, {'__str__': GlomError.__str__})
             wrapper = exc_wrapper_type(*exc.args)
             # the constructor may have transformed the args, and
             # attributes may have been attached after construction
